@@ -3,7 +3,6 @@ package checks
 import (
 	"fmt"
 	"math/rand"
-	"strings"
 
 	"verif/internal/core"
 	"verif/internal/lang"
@@ -42,7 +41,7 @@ func runRefProfile(c *core.Ctx, pf *refProfile) {
 			return
 		}
 		c.NoteInput("src", cs.Laid.Src)
-		if cs.Oc != nil && strings.HasPrefix(cs.Oc.Unspecified, "repeat result too large") {
+		if cs.Oc != nil && cs.Oc.TooLarge {
 			// excluded by the properties (result would exhaust memory): not run at all
 			c.Unspecified()
 			return
